@@ -361,6 +361,32 @@ impl It {
     }
 }
 
+/// the item of format `fmt` whose leaf is exactly `b` (None when there is none)
+fn parse_leaf(fmt: u8, b: &[u8]) -> Option<It> {
+    let s = std::str::from_utf8(b).ok()?;
+    let canon = |t: &str| -> Option<u64> { t.parse::<u64>().ok().filter(|n| n.to_string() == t) };
+    let it = match fmt {
+        0 => It::Hash(s.to_string()),
+        1 => {
+            let rest = s.strip_prefix("Tx/")?;
+            let v: Vec<&str> = rest.rsplitn(4, '/').collect();
+            if v.len() != 4 {
+                return None;
+            }
+            It::Tx { h: v[3].to_string(), bh: v[2].to_string(), bn: canon(v[1])?, slot: canon(v[0])? }
+        }
+        _ => {
+            let rest = s.strip_prefix("Block/")?;
+            let v: Vec<&str> = rest.rsplitn(3, '/').collect();
+            if v.len() != 3 {
+                return None;
+            }
+            It::Blk { bh: v[2].to_string(), bn: canon(v[1])?, slot: canon(v[0])? }
+        }
+    };
+    (it.real_leaf() == b).then_some(it)
+}
+
 #[derive(Clone, Debug)]
 struct Blk {
     num: u64,
@@ -389,9 +415,53 @@ fn gen_chain(rng: &mut Rng, max_blocks: u64, max_ranges: u64, used: &mut HashSet
         blocks.push(Blk { num, slot: num * 20 + rng.below(20), bh, txs });
         num += if dense { 1 } else { 1 + rng.below(6) };
     }
+    if blocks.is_empty() {
+        // the first block number fell beyond the top of a short chain: one block at the top (an empty chain
+        // has no Merkle root to sign)
+        let bh = hx8(rng, used);
+        let tx = hx8(rng, used);
+        blocks.push(Blk { num: top, slot: top * 20 + rng.below(20), bh, txs: vec![tx] });
+    }
     let last = blocks.last().map(|b| b.num).unwrap_or(0);
     let beacon = last + if rng.chance(1, 2) { 0 } else { rng.below(4) };
     (blocks, beacon)
+}
+
+/// a sparse chain: every block range holds one or two blocks and one or two transactions, so that range
+/// trees with a single leaf (root = the raw leaf) and with exactly one raw sibling pair occur on every run;
+/// slots have at least two digits
+fn gen_chain_sparse(rng: &mut Rng, used: &mut HashSet<String>) -> (Vec<Blk>, u64) {
+    let nranges = rng.range(3, 5);
+    let mut blocks = vec![];
+    for r in 0..nranges {
+        let base = r * 15;
+        let pat = if r == 0 { 0 } else { rng.below(4) };
+        let n1 = base + rng.below(7);
+        let n2 = base + 7 + rng.below(8);
+        let mut mk = |rng: &mut Rng, num: u64, ntx: u64| {
+            let bh = hx8(rng, used);
+            let txs = (0..ntx).map(|_| hx8(rng, used)).collect();
+            blocks.push(Blk { num, slot: num * 20 + 10 + rng.below(10), bh, txs });
+        };
+        match pat {
+            0 => mk(rng, n1, 1),
+            1 => mk(rng, n1, 2),
+            2 => {
+                mk(rng, n1, 1);
+                mk(rng, n2, 1);
+            }
+            _ => {
+                mk(rng, n1, 0);
+                mk(rng, n2, 1);
+            }
+        }
+    }
+    // a closing block in the next range: every range above is complete
+    let last = nranges * 15 + rng.below(3);
+    let bh = hx8(rng, used);
+    let tx = hx8(rng, used);
+    blocks.push(Blk { num: last, slot: last * 20 + 10 + rng.below(10), bh, txs: vec![tx] });
+    (blocks, last)
 }
 
 fn logger() -> slog::Logger {
@@ -488,12 +558,15 @@ struct Forest {
     root: Vec<u8>,
     names: HashMap<Vec<u8>, M>,
     leaves: HashSet<Vec<u8>>,
+    /// the committed tree of every range (same order as `ranges`): leaf bytes in tree order + MMR positions
+    trees: Vec<T>,
 }
 impl Forest {
     fn new(base: u64, ranges: Vec<((u64, u64), Vec<It>)>) -> Forest {
         let mut names = HashMap::new();
         let mut leaves = HashSet::new();
         let mut master_leaves = vec![];
+        let mut trees = vec![];
         for (i, (k, items)) in ranges.iter().enumerate() {
             let ls: Vec<Vec<u8>> = items.iter().map(|it| it.real_leaf()).collect();
             let t = T::new(base + 1 + i as u64, ls.clone());
@@ -504,6 +577,7 @@ impl Forest {
                 leaves.insert(l);
             }
             master_leaves.push(merge(&key_bytes(&BlockRange::from(k.0..k.1)), &t.root));
+            trees.push(t);
         }
         let root = if master_leaves.is_empty() {
             vec![]
@@ -514,7 +588,39 @@ impl Forest {
             }
             m.root.clone()
         };
-        Forest { ranges, root, names, leaves }
+        Forest { ranges, root, names, leaves, trees }
+    }
+    /// Known finding C11-raw-leaf-boundary, the class judged from PROVENANCE (the committed trees only):
+    /// `x` is not a committed leaf, and it is a proper re-cut of two adjacent RAW strings that the chain
+    /// commits only through their concatenation: a prefix of L[2k] ++ L[2k+1] (claimed at the left
+    /// position) or a suffix of it (claimed at the right position) for two sibling leaves of one range
+    /// tree, or a suffix of key ++ L for a range whose tree has the single leaf L (its root is L itself).
+    fn recut_of(&self, x: &[u8]) -> Option<String> {
+        if self.leaves.contains(x) {
+            return None;
+        }
+        for (ri, t) in self.trees.iter().enumerate() {
+            let k = self.ranges[ri].0;
+            for pair in t.leaves.chunks(2) {
+                if pair.len() == 2 {
+                    let cat = [pair[0].clone(), pair[1].clone()].concat();
+                    if cat.starts_with(x) || cat.ends_with(x) {
+                        return Some(format!(
+                            "range {}-{}: sibling leaves {:?} ++ {:?} re-cut",
+                            k.0, k.1, String::from_utf8_lossy(&pair[0]), String::from_utf8_lossy(&pair[1])
+                        ));
+                    }
+                }
+            }
+            if t.leaves.len() == 1 {
+                let key = key_bytes(&BlockRange::from(k.0..k.1));
+                let cat = [key.clone(), t.leaves[0].clone()].concat();
+                if cat.ends_with(x) && x.len() > t.leaves[0].len() {
+                    return Some(format!("range {}-{}: key {:?} ++ single leaf {:?} re-cut", k.0, k.1, String::from_utf8_lossy(&key), String::from_utf8_lossy(&t.leaves[0])));
+                }
+            }
+        }
+        None
     }
     fn coq(&self) -> String {
         cq::list(
@@ -765,12 +871,28 @@ fn push_case(sink: &mut Sink, id: u64, ctx: &Ctx, kind: &str, resp: &Resp, hones
     };
     // ---- the property, from provenance
     let committed = ctx.committed[resp.fmt as usize];
+    let mut known = None;
     let (holds, why) = if out.panicked {
         (false, Some("verification panicked".to_string()))
     } else if out.ok && out.matched {
-        let foreign: Vec<String> = out.reported.iter().filter(|i| !committed.contains(*i)).map(|i| i.desc()).collect();
+        let foreign: Vec<&It> = out.reported.iter().filter(|i| !committed.contains(*i)).collect();
         if !foreign.is_empty() {
-            (false, Some(format!("accepted and matched the signed message, but reported items are not in the certified chain: {:?}", foreign)))
+            // known finding C11-raw-leaf-boundary: EVERY wrongly reported item is a re-cut of two adjacent raw
+            // strings of the certified chain, and block number / offset are the signed ones; anything else
+            // stays a violation
+            let recuts: Vec<Option<String>> = foreign.iter().map(|i| ctx.fa[fi].recut_of(&i.real_leaf())).collect();
+            let in_class = recuts.iter().all(|r| r.is_some()) && resp.lbn == ctx.a.beacon && (resp.fmt == 0 || resp.off == ctx.a.offset);
+            if in_class {
+                known = Some(KNOWN_RAW.to_string());
+            }
+            (
+                false,
+                Some(format!(
+                    "accepted and matched the signed message, but reported items are not in the certified chain: {:?}{}",
+                    foreign.iter().map(|i| i.desc()).collect::<Vec<_>>(),
+                    if in_class { format!(" (each a re-cut: {:?})", recuts.iter().flatten().collect::<Vec<_>>()) } else { String::new() }
+                )),
+            )
         } else if resp.lbn != ctx.a.beacon {
             (false, Some(format!("accepted and matched with latest block number {} (signed: {})", resp.lbn, ctx.a.beacon)))
         } else if resp.fmt != 0 && resp.off != ctx.a.offset {
@@ -803,7 +925,7 @@ fn push_case(sink: &mut Sink, id: u64, ctx: &Ctx, kind: &str, resp: &Resp, hones
         impl_obs,
         holds: Some(holds),
         why,
-        known: None,
+        known,
         nontrivial: nranges >= 2 && !all.is_empty(),
         key,
     });
@@ -862,7 +984,8 @@ async fn honest(st: &Stack, names: &Names<'_>, fmt: u8, hashes: &[String]) -> Ve
     }
 }
 
-const N_ALT: u64 = 24;
+const N_ALT: u64 = 30;
+const KNOWN_RAW: &str = "C11-raw-leaf-boundary";
 /// one alteration of an honest response; returns (kind, altered response, description)
 async fn alter(
     rng: &mut Rng,
@@ -1004,7 +1127,7 @@ async fn alter(
             }
             "sub-proof-detached"
         }
-        9 | 10 | 11 | 12 => {
+        9 | 10 | 11 | 12 | 29 => {
             // splice with a proof of the foreign chain
             let fu = all_items(b, fmt);
             if fu.is_empty() {
@@ -1047,10 +1170,25 @@ async fn alter(
                     }
                     "foreign-master-proof"
                 }
-                _ => {
+                12 => {
                     // honest items, foreign proof
                     r.parts[pi].1 = ProofR::Good(fmp);
                     "foreign-proof-honest-items"
+                }
+                _ => {
+                    // the honest master proof with ONE sub-proof only: a foreign one under a committed key, and only
+                    // its items reported (every listed item is a leaf of a verifying sub-proof; only the link
+                    // `master contains key + sub root` can reject)
+                    if let ProofR::Good(mp) = &mut r.parts[pi].1 {
+                        if mp.subs.is_empty() || fmp.subs.is_empty() {
+                            return None;
+                        }
+                        let s = rng.below(mp.subs.len() as u64) as usize;
+                        let key = mp.subs[s].0.clone();
+                        mp.subs = vec![(key, fmp.subs[0].1.clone())];
+                        r.parts[pi].0 = fitems;
+                    }
+                    "foreign-sub-proof-alone"
                 }
             }
         }
@@ -1211,16 +1349,176 @@ async fn alter(
             }
             "part-repeated-with-forged-items"
         }
+        24 | 25 | 26 => {
+            // known finding C11-raw-leaf-boundary: a claimed leaf of a range sub-proof and its RAW sibling leaf
+            // (another claimed leaf, or a proof item) re-cut: same concatenation, other boundary.  The item
+            // whose leaf was re-cut is reported with the new leaf (24: the left leaf cut shorter, e.g. a slot
+            // number losing its last digits; 25: any cut (legacy) / the left leaf cut shorter; 26: one leaf
+            // becomes the whole concatenation, its sibling the empty string).
+            let f = names.a;
+            let ProofR::Good(mp) = &mut r.parts[pi].1 else { return None };
+            let mut cands: Vec<(usize, usize)> = vec![];
+            for (s, (_, sp)) in mp.subs.iter().enumerate() {
+                for j in 0..sp.master.leaves.len() {
+                    cands.push((s, j));
+                }
+            }
+            rng.shuffle(&mut cands);
+            let mut done = None;
+            for (s, j) in cands {
+                let k = (*mp.subs[s].0.start, *mp.subs[s].0.end);
+                let Some(ri) = f.ranges.iter().position(|(rk, _)| *rk == k) else { continue };
+                let t = &f.trees[ri];
+                let p = &mut mp.subs[s].1.master;
+                let cur = p.leaves[j].1 .0.clone();
+                let Some(i) = t.leaves.iter().position(|l| *l == cur) else { continue };
+                let sidx = i ^ 1;
+                if sidx >= t.leaves.len() || t.pos[i] != p.leaves[j].0 {
+                    continue;
+                }
+                let sib = t.leaves[sidx].clone();
+                let (left, right) = if i < sidx { (cur.clone(), sib.clone()) } else { (sib.clone(), cur.clone()) };
+                let cat = [left.clone(), right.clone()].concat();
+                let digits = left.iter().rev().take_while(|c| c.is_ascii_digit()).count();
+                let cut: usize = if which == 26 {
+                    if i < sidx { cat.len() } else { 0 }
+                } else if fmt == 0 && which == 25 {
+                    let c = 1 + rng.below(cat.len() as u64 - 1) as usize;
+                    if c == left.len() { continue } else { c }
+                } else if i < sidx && ((fmt == 0 && left.len() >= 2) || digits >= 2) {
+                    // the claimed LEFT leaf loses its last byte(s)
+                    let span = if fmt == 0 { left.len() - 1 } else { digits - 1 };
+                    left.len() - 1 - rng.below(span as u64) as usize
+                } else {
+                    continue;
+                };
+                let (nl, nr) = (cat[..cut].to_vec(), cat[cut..].to_vec());
+                let (ncur, nsib) = if i < sidx { (nl, nr) } else { (nr, nl) };
+                let Some(nitem) = parse_leaf(fmt, &ncur) else { continue };
+                // the sibling: another claimed leaf at its own position, or the raw bytes among the proof items
+                let mut sib_claimed = false;
+                let mut found = false;
+                for l in p.leaves.iter_mut() {
+                    if l.0 == t.pos[sidx] && l.1 .0 == sib {
+                        l.1 = (nsib.clone(), M::Raw(nsib.clone()));
+                        found = true;
+                        sib_claimed = true;
+                    }
+                }
+                if !found {
+                    if let Some(it) = p.items.iter_mut().find(|it| it.0 == sib) {
+                        *it = (nsib.clone(), M::Raw(nsib.clone()));
+                        found = true;
+                    }
+                }
+                if !found {
+                    continue;
+                }
+                for l in p.leaves.iter_mut() {
+                    if l.0 == t.pos[i] && l.1 .0 == cur {
+                        l.1 = (ncur.clone(), M::Raw(ncur.clone()));
+                    }
+                }
+                done = Some((cur, nitem, sib, nsib, sib_claimed));
+                break;
+            }
+            let (cur, nitem, sib, nsib, sib_claimed) = done?;
+            let items = &mut r.parts[pi].0;
+            for it in items.iter_mut() {
+                if it.real_leaf() == cur {
+                    *it = nitem.clone();
+                }
+            }
+            if sib_claimed {
+                match parse_leaf(fmt, &nsib) {
+                    Some(ns) => {
+                        for it in items.iter_mut() {
+                            if it.real_leaf() == sib {
+                                *it = ns.clone();
+                            }
+                        }
+                    }
+                    None => items.retain(|it| it.real_leaf() != sib),
+                }
+            }
+            match which {
+                24 => "raw-boundary-left-cut",
+                25 => "raw-boundary-cut",
+                _ => "raw-boundary-whole-concatenation",
+            }
+        }
+        28 if ni > 0 && fmt != 0 => {
+            // a TWIN of a proven item: same hash, other block / block number / slot, listed next to the original
+            // (a verifier that checks each hash once must still check every listed item)
+            let other = rng.pick(&a.blocks).clone();
+            let it = r.parts[pi].0[ii].clone();
+            let twin = match (it, rng.below(3)) {
+                (It::Tx { h, bh, bn, slot }, 0) => It::Tx { h, bh, bn, slot: slot + 1 + rng.below(9) },
+                (It::Tx { h, bh, slot, .. }, 1) => It::Tx { h, bh, bn: other.num + 1, slot },
+                (It::Tx { h, .. }, _) => It::Tx { h, bh: other.bh.clone(), bn: other.num, slot: other.slot + 1 },
+                (It::Blk { bh, bn, slot }, 0) => It::Blk { bh, bn, slot: slot + 1 + rng.below(9) },
+                (It::Blk { bh, slot, .. }, _) => It::Blk { bh, bn: other.num + 1, slot },
+                (x, _) => x,
+            };
+            if rng.coin() {
+                r.parts[pi].0.insert(ii + 1, twin);
+            } else {
+                r.parts[pi].0.push(twin);
+            }
+            "item-twin-moved"
+        }
+        27 if fmt == 0 => {
+            // the same defect one level up (legacy): a range whose tree has ONE leaf has that raw leaf as its
+            // root, so the master tree commits key ++ leaf only: the end of the block-range key "s-e" loses
+            // its last digit(s), which move in front of the transaction hash
+            let f = names.a;
+            let ProofR::Good(mp) = &mut r.parts[pi].1 else { return None };
+            let mut done = None;
+            for s in 0..mp.subs.len() {
+                let k = (*mp.subs[s].0.start, *mp.subs[s].0.end);
+                let Some(ri) = f.ranges.iter().position(|(rk, _)| *rk == k) else { continue };
+                let t = &f.trees[ri];
+                let es = k.1.to_string();
+                if t.leaves.len() != 1 || es.len() < 2 {
+                    continue;
+                }
+                let d = 1 + rng.below(es.len() as u64 - 1) as usize;
+                let (keep, moved) = es.split_at(es.len() - d);
+                let Ok(ne) = keep.parse::<u64>() else { continue };
+                if ne.to_string() != keep {
+                    continue;
+                }
+                let leaf = t.leaves[0].clone();
+                let nleaf = [moved.as_bytes().to_vec(), leaf.clone()].concat();
+                let p = &mut mp.subs[s].1.master;
+                if p.leaves.len() != 1 || p.leaves[0].1 .0 != leaf || p.root.0 != leaf {
+                    continue;
+                }
+                p.leaves[0].1 = (nleaf.clone(), M::Raw(nleaf.clone()));
+                p.root = (nleaf.clone(), M::Raw(nleaf.clone()));
+                mp.subs[s].0 = BlockRange::from(k.0..ne);
+                done = Some((leaf, nleaf));
+                break;
+            }
+            let (leaf, nleaf) = done?;
+            let nitem = parse_leaf(0, &nleaf)?;
+            for it in r.parts[pi].0.iter_mut() {
+                if it.real_leaf() == leaf {
+                    *it = nitem.clone();
+                }
+            }
+            "raw-boundary-key-cut"
+        }
         _ => return None,
     };
     let note = json!({ "alteration": kind });
     Some((kind.to_string(), r, note))
 }
 
-async fn explore_chain(sink: &mut Sink, rng: &mut Rng, work: &PathBuf, chain_no: u64, thorough: bool) {
+async fn explore_chain(sink: &mut Sink, rng: &mut Rng, work: &PathBuf, chain_no: u64, thorough: bool, sparse: bool) {
     let mut used = HashSet::new();
     let (max_blocks, max_ranges) = if thorough { (120, 6) } else { (60, 5) };
-    let (blocks_a, beacon_a) = gen_chain(rng, max_blocks, max_ranges, &mut used);
+    let (blocks_a, beacon_a) = if sparse { gen_chain_sparse(rng, &mut used) } else { gen_chain(rng, max_blocks, max_ranges, &mut used) };
     let (blocks_b, beacon_b) = gen_chain(rng, 30, 2, &mut used);
     let offset = *rng.pick(&[0u64, 1, 15, 100, 2160]);
     let nq = if thorough { 10 } else { 5 };
@@ -1321,6 +1619,55 @@ fn sd_leaf_list(d: &StakeDistribution) -> Vec<Vec<u8>> {
         Err(_) => vec![],
     }
 }
+/// chunk-wise concatenation of a leaf list: what the tree commits of two raw sibling leaves
+fn pair_cat(l: &[Vec<u8>]) -> Vec<Vec<u8>> {
+    l.chunks(2).map(|c| c.concat()).collect()
+}
+/// an entry (pool id, stake) whose leaf `id ++ decimal stake` is exactly `s`: the longest canonical digit run
+fn sd_split(s: &str) -> Option<(String, u64)> {
+    let nd = s.bytes().rev().take_while(|c| c.is_ascii_digit()).count();
+    for take in (1..=nd).rev() {
+        let (id, st) = s.split_at(s.len() - take);
+        if id.is_empty() || (st.len() > 1 && st.starts_with('0')) {
+            continue;
+        }
+        if let Ok(v) = st.parse::<u64>() {
+            return Some((id.to_string(), v));
+        }
+    }
+    None
+}
+/// a different distribution in which one pair of sibling leaves is re-cut (None when there is none): every
+/// pair (the last first), every cut; a candidate is kept when the real builder's leaf list differs from
+/// the signed one while the pairwise concatenations are equal
+fn sd_boundary_move(signed: &StakeDistribution, start: usize) -> Option<StakeDistribution> {
+    let ks: Vec<(String, u64)> = signed.iter().map(|(k, v)| (k.clone(), *v)).collect();
+    let npairs = ks.len() / 2;
+    let sl = sd_leaf_list(signed);
+    for pi in (0..npairs).rev() {
+        let (e1, e2) = (&ks[2 * pi], &ks[2 * pi + 1]);
+        let l1 = format!("{}{}", e1.0, e1.1);
+        let cat = format!("{}{}{}", l1, e2.0, e2.1);
+        let cuts: Vec<usize> = (1..cat.len()).filter(|c| *c != l1.len() && cat.is_char_boundary(*c)).collect();
+        for ci in 0..cuts.len() {
+            let c = cuts[(ci + start) % cuts.len()];
+            let (Some(a), Some(b)) = (sd_split(&cat[..c]), sd_split(&cat[c..])) else { continue };
+            let mut d = signed.clone();
+            d.remove(&e1.0);
+            d.remove(&e2.0);
+            if a.0 == b.0 || d.contains_key(&a.0) || d.contains_key(&b.0) {
+                continue;
+            }
+            d.insert(a.0, a.1);
+            d.insert(b.0, b.1);
+            let ll = sd_leaf_list(&d);
+            if ll != sl && pair_cat(&ll) == pair_cat(&sl) {
+                return Some(d);
+            }
+        }
+    }
+    None
+}
 async fn explore_sd(sink: &mut Sink, rng: &mut Rng, thorough: bool) {
     let batches = if thorough { 400 } else { 60 };
     const AL: &[u8] = b"qpzry9x8gf2tvdw0s3jn54khce6mua7l";
@@ -1356,7 +1703,16 @@ async fn explore_sd(sink: &mut Sink, rng: &mut Rng, thorough: bool) {
             let k = rng.pick(&keys).clone();
             let s = d[&k];
             let mut e = epoch;
-            let kind = match rng.below(9) {
+            let kind = match rng.below(11) {
+                9 | 10 => {
+                    // known finding C11-raw-leaf-boundary on the stake-distribution tree: two sibling leaves
+                    // (entries 2k, 2k+1 of the BTreeMap order) re-cut — same concatenation, other boundary
+                    let start = rng.below(64);
+                    if let Some(nd) = sd_boundary_move(&signed, start as usize) {
+                        d = nd;
+                    }
+                    "sibling-boundary-moved"
+                }
                 0 => {
                     d.insert(k, s ^ (1 << rng.below(20)));
                     "stake-edited"
@@ -1453,8 +1809,13 @@ async fn explore_sd(sink: &mut Sink, rng: &mut Rng, thorough: bool) {
                 holds = false;
                 why = Some(format!("report '{}' {:?} (epoch {}) is accepted as the certified distribution {:?} (epoch {})", kind, d, e, signed, epoch));
                 // the known class: the (pool id, stake) lists differ only by moving trailing digits between identifier and stake
-                if *e == epoch && sd_leaf_list(d) == sd_leaf_list(&signed) {
+                let (ll, sl) = (sd_leaf_list(d), sd_leaf_list(&signed));
+                if *e == epoch && ll == sl {
                     known = Some("C11-stake-leaf-concatenation".to_string());
+                } else if *e == epoch && ll.len() == sl.len() && pair_cat(&ll) == pair_cat(&sl) {
+                    // known finding C11-raw-leaf-boundary: the leaf lists differ, but only by where the boundary
+                    // inside sibling pairs (entries 2k, 2k+1) lies
+                    known = Some(KNOWN_RAW.to_string());
                 } else {
                     known = None;
                 }
@@ -1485,7 +1846,11 @@ async fn explore_sd(sink: &mut Sink, rng: &mut Rng, thorough: bool) {
         let kinds: Vec<&str> = reports.iter().map(|r| r.0.as_str()).collect();
         sink.push(Case {
             id,
-            kind: if known.is_some() { "sd/digit-move-collision".into() } else { "sd/batch".into() },
+            kind: match known.as_deref() {
+                Some(KNOWN_RAW) => "sd/sibling-boundary-collision".into(),
+                Some(_) => "sd/digit-move-collision".into(),
+                None => "sd/batch".into(),
+            },
             desc: json!({"signed": signed, "epoch": epoch, "reports": descs}),
             model: Some(model),
             impl_obs,
@@ -1512,7 +1877,13 @@ fn main() {
         explore_sd(&mut sink, &mut sd_rng, args.thorough).await;
         for c in 0..chains {
             let mut crng = rng.fork();
-            explore_chain(&mut sink, &mut crng, &work, c, args.thorough).await;
+            explore_chain(&mut sink, &mut crng, &work, c, args.thorough, false).await;
+        }
+        // sparse chains (single-leaf ranges, lone sibling pairs): the raw-boundary re-cuts one level up
+        let sparse = if args.thorough { 4 } else { 1 };
+        for c in 0..sparse {
+            let mut crng = rng.fork();
+            explore_chain(&mut sink, &mut crng, &work, chains + c, args.thorough, true).await;
         }
     });
     let _ = std::fs::remove_dir_all(&work);
